@@ -48,14 +48,15 @@ def _set(xs):
 
 
 C01_INVS = ['Symmetric', 'ZeroIffEqualMeans', 'LabelOrderSorted', 'OneRowPerLabel',
-            'EntryBelongsToLabels', 'RowsAreObservations', 'ListAligned', 'MovieIsStack']
+            'EntryBelongsToLabels', 'RowsAreObservations', 'ListAligned', 'MovieIsStack',
+            'UnbalancedMatchesBalanced']
 C02_INVS = ['NoSelfPairs', 'AllFoldsUsed', 'EqualWeights', 'PairsSymmetric', 'CoefWithinFoldZero',
             'CvMatchesLeaveOneOut', 'CvSymmetric', 'DefaultFoldsRule', 'LabelOrderSorted', 'OneRowPerLabel']
 
 
 def cfg(mode, *, nobs, nch, nlab, nobs2=0, vals='Vals012', datasrc='grid', dataids=(1,),
         methods=('euclidean',), rms=(False,), usedescs=(True,), precids=(0,), priorids=(1,),
-        extids=(1,), nt=0, binids=(0,), nfold=0, foldsrcs=(), fprecids=(0,), permlevel=0,
+        extids=(1,), nt=0, binids=(0,), nfold=0, foldsrcs=(), fprecids=(0,), unbals=(False,), permlevel=0,
         emitmod=1, emitcoef=False, emit=True, agree=False, trace=False, invs=None):
     """configuration text for MC_CalcRdm (or MC_Trace_CalcRdm with trace=True)"""
     lines = ['CONSTANTS', f'  Mode = "{mode}"', f'  NObs = {nobs}', f'  NObs2 = {nobs2}', f'  NCh = {nch}',
@@ -67,7 +68,7 @@ def cfg(mode, *, nobs, nch, nlab, nobs2=0, vals='Vals012', datasrc='grid', datai
              f'  ExtIds = {_set(extids)}', f'  NT = {nt}', '  TimeVals <- TimeValsA',
              f'  BinCat <- BinCat{3 if nt >= 3 else 2}', f'  BinIds = {_set(binids)}', f'  NFold = {nfold}',
              f'  FoldSrcs = {_set(foldsrcs)}', '  FoldPrecCat <- FoldPrecCatA',
-             f'  FoldPrecIds = {_set(fprecids)}', f'  PermLevel = {permlevel}', f'  EmitMod = {emitmod}',
+             f'  FoldPrecIds = {_set(fprecids)}', f'  Unbals = {_set(unbals)}', f'  PermLevel = {permlevel}', f'  EmitMod = {emitmod}',
              f'  EmitCoef = {"TRUE" if emitcoef else "FALSE"}']
     if trace:
         lines += ['INIT TInit', 'NEXT TNext']
@@ -648,7 +649,7 @@ def trace_cfg():
              '  RMs = {}', '  UseDescs = {}', '  PrecCat <- NoCat', '  PrecIds = {}', '  PriorCat <- NoCat',
              '  PriorIds = {}', '  ExtCat <- NoCat', '  ExtIds = {}', '  NT = 0', '  TimeVals <- NoCat',
              '  BinCat <- NoCat', '  BinIds = {}', '  NFold = 0', '  FoldSrcs = {}', '  FoldPrecCat <- NoCat',
-             '  FoldPrecIds = {}', '  PermLevel = 0', '  EmitMod = 1', '  EmitCoef = FALSE',
+             '  FoldPrecIds = {}', '  Unbals = {}', '  PermLevel = 0', '  EmitMod = 1', '  EmitCoef = FALSE',
              'INIT TInit', 'NEXT TNext']
     # (CoefWithinFoldZero is data independent and checked on every enumerated design; it is quadratic in the
     # number of observations and left out for the recorded 22-36 observation designs)
